@@ -32,8 +32,8 @@ import (
 
 	"0chain.net/chaincore/block"
 	"0chain.net/chaincore/chain"
-	"0chain.net/chaincore/node"
 	cstate "0chain.net/chaincore/chain/state"
+	"0chain.net/chaincore/node"
 	"0chain.net/chaincore/smartcontract"
 	"0chain.net/chaincore/state"
 	"0chain.net/chaincore/transaction"
@@ -77,11 +77,11 @@ const (
 )
 
 var (
-	setupOnce sync.Once
-	uid       [nUniverse]string
-	ucl       [nUniverse]engine.Client
+	setupOnce  sync.Once
+	uid        [nUniverse]string
+	ucl        [nUniverse]engine.Client
 	isContract = map[int]bool{iMiner: true, iStorage: true, iFaucet: true, iZcn: true, iVesting: true, iMultisig: true}
-	keys      *keyring
+	keys       *keyring
 )
 
 func setup() {
@@ -152,18 +152,19 @@ var genesisBal = func() [nUniverse]uint64 {
 type payload struct {
 	Fn    string            `json:"fn,omitempty"`
 	In    string            `json:"in,omitempty"`
-	Hash  string            `json:"h"`            // transaction hash (pool / allocation ids derive from it)
-	Dt    int64             `json:"dt,omitempty"` // seconds the clock advances before the transaction
-	NB    bool              `json:"nb,omitempty"` // seal the block first
+	Hash  string            `json:"h"`             // transaction hash (pool / allocation ids derive from it)
+	Dt    int64             `json:"dt,omitempty"`  // seconds the clock advances before the transaction
+	NB    bool              `json:"nb,omitempty"`  // seal the block first
 	Ext   map[string]string `json:"ext,omitempty"` // index -> id, for ids outside the fixed universe first seen here
-	Grant *grantInfo        `json:"g,omitempty"`  // what the GENERATOR knows about the free-storage marker (for the oracle)
+	Grant *grantInfo        `json:"g,omitempty"`   // what the GENERATOR knows about the free-storage marker (for the oracle)
+	Sh    bool              `json:"sh,omitempty"`  // a marker-book shadow line follows this transaction
 	Note  string            `json:"note,omitempty"`
 }
 
 type grantInfo struct {
-	Assigner   string `json:"a"`  // name
-	SignerKey  int    `json:"k"`  // which key signed the marker (index into keyring.signer)
-	Tokens     uint64 `json:"t"`  // free tokens of the marker, in coins
+	Assigner   string `json:"a"` // name
+	SignerKey  int    `json:"k"` // which key signed the marker (index into keyring.signer)
+	Tokens     uint64 `json:"t"` // free tokens of the marker, in coins
 	Nonce      int64  `json:"n"`
 	Recipient  int    `json:"r"`
 	TamperedAt string `json:"x,omitempty"`
@@ -191,19 +192,22 @@ type sigObs struct {
 
 // obs: what the implementation run observed for one op (side channel to the oracle, keyed by the op sequence).
 type obs struct {
-	kind       string // init | txn
-	typ        string
-	sender, to int
-	value, fee uint64
-	feeOn      bool
-	fn         string
-	status     string
-	signed     []sigObs
-	grantSeen  bool // a free_allocation_request
-	grantValid bool // ... whose marker the harness itself found valid
-	grantMax   uint64
-	recorded   string // the queue the dry run recorded now
-	output     string
+	kind        string // init | txn
+	typ         string
+	sender, to  int
+	value, fee  uint64
+	feeOn       bool
+	fn          string
+	status      string
+	signed      []sigObs
+	grantSeen   bool // a free_allocation_request
+	grantValid  bool // ... whose marker the harness itself found valid
+	grantMax    uint64
+	grantReplay bool // the marker's (assigner, nonce) is already in the harness's own book of redeemed markers
+	dryErr      string
+	hash        string
+	recorded    string // the queue the dry run recorded now
+	output      string
 }
 
 var side sync.Map // hashOps -> []obs
@@ -218,14 +222,15 @@ func hashOps(ops []string) string {
 }
 
 type world struct {
-	w       *engine.World
-	wid     uint64
-	feeOn   bool
-	ext     map[string]int // id -> index (≥ extBase)
-	extID   map[int]string
-	known   map[string]bool // hex txn hashes that client-state leaves may carry
-	leaves  map[string]string
-	free    *freeBook // the harness's own bookkeeping of free-storage assigners (oracle side)
+	w          *engine.World
+	wid        uint64
+	lastDryErr string // error text of the last dry run ("" = the contract returned no error)
+	feeOn      bool
+	ext        map[string]int // id -> index (≥ extBase)
+	extID      map[int]string
+	known      map[string]bool // hex txn hashes that client-state leaves may carry
+	leaves     map[string]string
+	free       *freeBook // the harness's own bookkeeping of free-storage assigners (oracle side)
 }
 
 var (
@@ -428,6 +433,7 @@ func (x *world) mkTxn(typ string, sender, to int, value, fee uint64, nonce int64
 
 // dryRun executes the contract on a throw-away context (built like updateState's) and returns what it queued.
 func (x *world) dryRun(t *transaction.Transaction) (res string, signed []sigObs, newIDs []string) {
+	x.lastDryErr = ""
 	if t.TransactionType != transaction.TxnTypeSmartContract {
 		return "-", nil, nil
 	}
@@ -447,6 +453,9 @@ func (x *world) dryRun(t *transaction.Transaction) (res string, signed []sigObs,
 		}()
 		_, err = x.w.C.ExecuteSmartContract(context.Background(), cp, sctx)
 	}()
+	if err != nil {
+		x.lastDryErr = err.Error()
+	}
 	switch {
 	case err == nil:
 	case err == context.DeadlineExceeded || err == transaction.ErrSmartContractContext || err == util.ErrNodeNotFound || err == context.Canceled || cstate.ErrInvalidState(err):
@@ -555,9 +564,11 @@ func (x *world) applyLine(pl parsed) (string, obs) {
 	t := x.mkTxn(pl.typ, pl.sender, pl.to, pl.value, pl.fee, pl.nonce, pl.p)
 	o := obs{kind: "txn", typ: pl.typ, sender: pl.sender, to: pl.to, value: pl.value, fee: pl.fee, feeOn: x.feeOn, fn: pl.p.Fn}
 	o.recorded, o.signed, _ = x.dryRun(t)
+	o.dryErr, o.hash = x.lastDryErr, pl.p.Hash
 	if pl.typ == "sc" && pl.to == iStorage && pl.p.Fn == "free_allocation_request" {
 		o.grantSeen = true
 		o.grantValid, o.grantMax = x.free.judge(pl.sender, pl.p.In, x)
+		o.grantReplay = x.free.alreadyRedeemed(pl.p.In)
 	}
 	o.status = x.exec(t)
 	o.output = t.TransactionOutput
@@ -569,6 +580,7 @@ func impl(ops []string) []string {
 	outs := make([]string, len(ops))
 	observations := make([]obs, len(ops))
 	var x *world
+	staleShadow := false
 	for i, op := range ops {
 		func() {
 			defer func() {
@@ -583,12 +595,24 @@ func impl(ops []string) []string {
 				observations[i] = obs{kind: "init", feeOn: w[1] == "1"}
 				return
 			}
+			if len(w) >= 2 && (w[0] == "fsa" || w[0] == "frm") && x != nil {
+				// shadow line of the transaction just before it: the book's verdict, read off the real contract's answer
+				ans, ok := shadowAnswer(w, i, ops, observations)
+				if !ok {
+					staleShadow = true
+				}
+				outs[i] = ans
+				return
+			}
 			pl, ok := parseTxn(op)
 			if !ok || x == nil {
 				outs[i] = "bad-op"
 				return
 			}
 			outs[i], observations[i] = x.applyLine(pl)
+			if pl.p.Sh && (i+1 >= len(ops) || !(strings.HasPrefix(ops[i+1], "fsa ") || strings.HasPrefix(ops[i+1], "frm ")) || !strings.HasSuffix(ops[i+1], " "+pl.p.Hash[:12])) {
+				staleShadow = true // the shrinker cut the shadow line off its transaction
+			}
 			if os.Getenv("C04_DUMP") != "" {
 				o := observations[i]
 				fmt.Fprintf(os.Stderr, "%s\n    -> %s recorded=%s signed=%v grant=%v/%v out=%.200s\n    %s\n", describe(op), o.status, o.recorded, o.signed, o.grantSeen, o.grantValid, o.output, outs[i])
@@ -602,7 +626,7 @@ func impl(ops []string) []string {
 	h := hashOps(ops)
 	if _, ok := genuine.Load(h); !ok {
 		for i, op := range ops {
-			if pl, ok := parseTxn(op); ok && pl.typ == "sc" && observations[i].kind == "txn" && observations[i].recorded != pl.res {
+			if pl, ok := parseTxn(op); (ok && pl.typ == "sc" && observations[i].kind == "txn" && observations[i].recorded != pl.res) || (staleShadow && i == 0) {
 				if mo, err := corr.RunModel(zdrvDir(), "C04", ops); err == nil {
 					side.Delete(h)
 					return mo
@@ -616,6 +640,65 @@ func impl(ops []string) []string {
 }
 
 var genuine sync.Map // hashOps of the generated and fixed cases
+
+// shadowAnswer: the verdict of the real contract on the registration / redemption of the transaction line right
+// before this shadow line, in the vocabulary of Model/FreeMarkers.lean. ok=false: the shadow line does not follow
+// its own transaction (a shrinker's sub-sequence).
+func shadowAnswer(w []string, i int, ops []string, observations []obs) (string, bool) {
+	ref := w[len(w)-1]
+	if i == 0 || observations[i-1].kind != "txn" || !strings.HasPrefix(observations[i-1].hash, ref) {
+		return "no-transaction", false
+	}
+	o := observations[i-1]
+	e := o.dryErr
+	has := func(sub string) bool { return strings.Contains(e, sub) }
+	switch w[0] {
+	case "fsa":
+		switch {
+		case e == "" && o.status == "success":
+			return "ok", true
+		case has("only the owner"):
+			return "rej-owner", true
+		case has("total tokens limit"):
+			return "rej-total-cap", true
+		case has("individual allocation token limit"):
+			return "rej-individual-cap", true
+		case e == "": // accepted by the contract, the transaction itself was not applied: the generator emits no shadow
+			// line for that, so this is a shrinker's sub-sequence in which the transaction lost its footing (nonce)
+			return "not-applied", false
+		}
+		return "other:" + strings.ReplaceAll(e, " ", "_"), true
+	case "frm":
+		// `later` was recorded from the transaction's status: when it no longer matches, the line is stale
+		fresh := len(w) >= 9 && (w[7] == "1") == (o.status == "success")
+		ans, _ := frmAnswer(e, o.status)
+		return ans, fresh
+	}
+	return "bad-op", true
+}
+
+func frmAnswer(e, status string) (string, bool) {
+	has := func(sub string) bool { return strings.Contains(e, sub) }
+	switch {
+	case e == "" && status == "success":
+		return "accept", true
+	case e == "":
+		return "passed-failed-later", true
+	case has("only by its recipient"):
+		return "rej-recipient", true
+	case has("error getting assigner details"):
+		return "rej-unknown-assigner", true
+	case has("failed to verify signature"):
+		return "rej-signature", true
+	case has("exceeded total permitted"):
+		return "rej-total", true
+	case has("exceeded permitted free storage"):
+		return "rej-individual", true
+	case has("already redeemed"):
+		return "rej-nonce", true
+	}
+	return "passed-failed-later", true // the marker was validated, a later step of the call failed
+}
 
 func zdrvDir() string {
 	if f := flag.Lookup("zdrv"); f != nil {
@@ -681,6 +764,9 @@ func oracle(ops, outs []string) *corr.Violation {
 		status, cur, ok := parseAccts(outs[i])
 		if !ok {
 			return mk("unparsable-answer", outs[i], i)
+		}
+		if o.grantSeen && o.grantReplay && status == "success" {
+			return mk("marker-nonce-honoured-twice", "a free_allocation_request succeeded on a marker whose (assigner, nonce) had already been redeemed earlier in this history (each signed authorisation is honoured at most once, whatever registrations came in between)", i)
 		}
 		ids := map[int]bool{}
 		for k := range prev {
